@@ -191,6 +191,8 @@ func (c *wsConnection) init() bool {
 			c.initPayload = make(InitPayload)
 			err := json.Unmarshal(m.payload, &c.initPayload)
 			if err != nil {
+				c.sendConnectionError("invalid init payload")
+				c.close(websocket.CloseProtocolError, "invalid init payload")
 				return false
 			}
 		}
